@@ -41,7 +41,7 @@ PROPS = {
                   simulate=dict(quick="num=600", thorough="num=25000", depth=80))], shards=14),
               dict(topic="compress", gen=[dict(module="Gen_Packet", cfg="Gen_Packet.cfg", out="packet_cases.ndjson",
                   simulate=dict(quick="num=1500", thorough="num=25000", depth=80))], shards=14)],
-        rules=["NoPanic", "SinkErr", "SinkSame", "BuildOk", "PlainCanonical", "CompDecodes", "WellFramed"],
+        rules=["NoPanic", "SinkErr", "SinkSame", "BuildOk", "PlainCanonical", "CompDecodes", "WellFramed", "ChunkSame"],
     ),
     "C05": dict(
         gen=[dict(module="Gen_Framing", cfg="Gen_Framing.cfg", cfg_thorough="Gen_Framing_thorough.cfg", out="framing_cases.ndjson"),
@@ -83,7 +83,7 @@ PROPS = {
     "C10": dict(
         gen=[dict(module="Gen_RData", cfg="Gen_RData.cfg", cfg_thorough="Gen_RData_thorough.cfg", out="rdata_cases.ndjson")],
         topic="rdata",
-        rules=["NoPanic", "EnvelopeErr", "ParseEqRef", "MustAccept", "BuildOk", "PlainCanonical", "SvcbSetters", "CompDecodes"],
+        rules=["NoPanic", "EnvelopeErr", "ParseEqRef", "MustAccept", "BuildOk", "PlainCanonical", "SvcbSetters", "CompDecodes", "ChunkSame"],
         shards=12,
     ),
     "C11": dict(
